@@ -41,6 +41,7 @@ type fAlt struct {
 
 type fileHandle struct {
 	f        *FileObj
+	path     Value  // os.CreateTemp: the name handed back by Name()
 	sizeAt   *Term  // for a path-based stat result of a lagging reader: the instant it describes
 	alts     []fAlt // the files this handle may refer to (path chosen by a symbolic condition); guards are exclusive
 	appendMd bool
@@ -69,6 +70,9 @@ type FS struct {
 	prevDie  *Term // the previous process's death / progress variable (a writer observed by a reader)
 	lagStat  bool  // path-based os.Stat of the reader sees an earlier instant than its later open
 	nInstant int
+	nTemp    int
+	lockFile *FileObj
+	lockReplaced *Term // some rename put another file in the lock file's place
 	proc     int
 	initCells []*LineCell
 	effT     []effRec
@@ -100,6 +104,9 @@ func (w *World) fsInit() {
 	w.fs = &FS{on: true, files: map[*Term]*FileObj{}, handles: map[*Object]*fileHandle{}, scanners: map[*Object]*scannerState{}, writers: map[*Object]*fileHandle{}}
 	for name, m := range map[string]modelFn{
 		"os.Stat":                    w.fsStat,
+		"os.Lstat":                   w.fsStat, // no symbolic links in the model
+		"(fs.FileMode).IsRegular":    func(ex *Exec, c *callCtx) Value { return BoolV{True} },
+		"(io/fs.FileMode).IsRegular": func(ex *Exec, c *callCtx) Value { return BoolV{True} },
 		"os.Open":                    w.fsOpen,
 		"os.OpenFile":                w.fsOpenFile,
 		"os.Rename":                  w.fsRename,
@@ -118,6 +125,30 @@ func (w *World) fsInit() {
 			return MergeV(existed, NilRef(), w.notExistErr())
 		},
 		"os.WriteFile":               w.fsWriteFile,
+		"os.ReadFile": func(ex *Exec, c *callCtx) Value {
+			panic(unsupported("os.ReadFile on the file model: a file is a sequence of line objects, its raw bytes are not represented"))
+		},
+		"os.CreateTemp": func(ex *Exec, c *callCtx) Value {
+			// a fresh, uniquely named, empty file in the given directory
+			w.fs.nTemp++
+			name := StrV{T: UF("pathjoin", SInt, c.args[0].(StrV).T, IntC(Lits.Code(fmt.Sprintf("zz-createtemp-%d", w.fs.nTemp))))}
+			f := w.file(name)
+			alive, _ := w.effect(c, "create", f)
+			f.Exists = Or(f.Exists, alive)
+			h := &fileHandle{f: f, write: true, appendMd: true, path: name}
+			return TupleV{E: []Value{w.newHandle(f, h), NilRef()}}
+		},
+		"(*os.File).Name": func(ex *Exec, c *callCtx) Value {
+			h := w.handleOf(c.args[0])
+			if h.path == nil {
+				panic(unsupported("(*os.File).Name of a file not opened through os.CreateTemp"))
+			}
+			return h.path
+		},
+		"(*os.File).Chmod": func(ex *Exec, c *callCtx) Value { return NilRef() },
+		ergoPath + ".zzLockFileStable": func(ex *Exec, c *callCtx) Value {
+			return BoolV{Not(w.fs.lockReplaced)}
+		},
 		"os.MkdirAll":                func(ex *Exec, c *callCtx) Value { return NilRef() },
 		"(*os.File).Close":           func(ex *Exec, c *callCtx) Value { return NilRef() },
 		"(*os.File).Sync":            func(ex *Exec, c *callCtx) Value { return NilRef() },
@@ -426,6 +457,8 @@ func (w *World) lookupInvokeFS(t types.Type, method string) modelFn {
 		}
 	case "IsDir":
 		return func(ex *Exec, c *callCtx) Value { return BoolV{False} }
+	case "Mode":
+		return func(ex *Exec, c *callCtx) Value { return IntV{BVC(0o644, 32), false} } // a regular file
 	}
 	return nil
 }
@@ -714,6 +747,9 @@ func (w *World) fsRename(ex *Exec, c *callCtx) Value {
 			}
 			a, b := xa.f, xb.f
 			alive, ridx := w.effect(withGuard(c, g), "rename", b)
+			if b == w.fs.lockFile {
+				w.fs.lockReplaced = Or(w.fs.lockReplaced, And(c.guard, g))
+			}
 			w.fs.effects[len(w.fs.effects)-1]["srcleaf"] = a.leaf
 			_ = ridx
 			// line i of the new content and line i of the old content are never both there:
@@ -964,6 +1000,7 @@ func (w *World) mFSInit(ex *Exec, c *callCtx) Value {
 	}
 	lock := w.file(join("lock"))
 	lock.Exists = ex.nondet("fs.lock.exists", "bool").(BoolV).T
+	w.fs.lockFile, w.fs.lockReplaced = lock, False
 	tmp := w.file(StrV{T: UF("cat", SInt, join("plans.jsonl").T, IntC(Lits.Code(".tmp")))})
 	tmp.Exists = ex.nondet("fs.tmp.exists", "bool").(BoolV).T
 	tmp.Garbled = And(tmp.Exists, ex.nondet("fs.tmp.stale", "bool").(BoolV).T)
